@@ -562,10 +562,12 @@ class QuorumSensing:
             # Higher confidence = more influence
             likelihood = 0.5 + (vote.confidence * 0.4)  # 0.5-0.9
             prior_permit = self._bayesian_update(prior_permit, likelihood, vote.weight)
+            prior_block = self._bayesian_update(prior_block, 1.0 - likelihood, vote.weight)
 
         for vote in block_votes:
             likelihood = 0.5 + (vote.confidence * 0.4)
             prior_block = self._bayesian_update(prior_block, likelihood, vote.weight)
+            prior_permit = self._bayesian_update(prior_permit, 1.0 - likelihood, vote.weight)
 
         # Normalize
         total = prior_permit + prior_block
@@ -574,7 +576,8 @@ class QuorumSensing:
         else:
             posterior_permit = 0.5
 
-        reached = posterior_permit > threshold
+        # The prior alone is not support: PERMIT needs at least one permit vote
+        reached = len(permit_votes) > 0 and posterior_permit > threshold
         decision = VoteType.PERMIT if reached else VoteType.BLOCK
 
         return QuorumResult(
@@ -595,6 +598,7 @@ class QuorumSensing:
         """Apply Bayesian update with weighted evidence."""
         # Weighted likelihood based on agent weight
         adjusted_likelihood = 0.5 + (likelihood - 0.5) * weight
+        adjusted_likelihood = max(0.0, min(1.0, adjusted_likelihood))
 
         # Bayes' theorem: P(H|E) = P(E|H) * P(H) / P(E)
         # Simplified: just multiply prior by likelihood
